@@ -14,11 +14,13 @@ Section ElemInd.
   Hypothesis Hint : forall z, P (EInt z).
   Hypothesis Hstr : forall s, P (EStr s).
   Hypothesis Harr : forall l, Forall P l -> P (EArr l).
+  Hypothesis Hatom : forall id text t, P (EAtom id text t).
   Fixpoint elem_ind' (e : elem) : P e :=
     match e with
     | ENull => Hnull | EBool b => Hbool b | EInt z => Hint z | EStr s => Hstr s
     | EArr l => Harr l ((fix go (l : list elem) : Forall P l :=
                            match l with [] => Forall_nil P | x :: r => Forall_cons x (elem_ind' x) (go r) end) l)
+    | EAtom id text t => Hatom id text t
     end.
 End ElemInd.
 
@@ -86,8 +88,8 @@ Proof.
   intros l args Hok. apply andb_true_iff in Hok. destruct Hok as [H0 H1].
   unfold m_slice, js_slice. cbn [sig_of].
   rewrite !slot_bind2 by lia. unfold index_arg_ok, opt_int in *.
-  destruct (nth_error args 0) as [[| | s0 | |]|]; try discriminate;
-  destruct (nth_error args 1) as [[| | e0 | |]|]; try discriminate; cbn [as_int is_null];
+  destruct (nth_error args 0) as [[| | s0 | | |]|]; try discriminate;
+  destruct (nth_error args 1) as [[| | e0 | | |]|]; try discriminate; cbn [as_int is_null];
   f_equal; apply slice_core.
 Qed.
 
@@ -144,7 +146,7 @@ Proof.
   destruct (slot_bind3 args) as [S0 [S1 S2]]. rewrite S0, S1, S2, H0. cbn [as_int items_of].
   pose proof (splice_core l (skipn 2 args) s (opt_int args 1)) as Hc. cbn zeta in Hc.
   unfold index_arg_ok, opt_int in *.
-  destruct (nth_error args 1) as [[| | d | |]|]; try discriminate; cbn [as_int is_null] in *;
+  destruct (nth_error args 1) as [[| | d | | |]|]; try discriminate; cbn [as_int is_null] in *;
     rewrite <- Hc; reflexivity.
 Qed.
 
@@ -177,7 +179,7 @@ Proof.
   assert (Hfrom : match as_int (match nth_error args 1 with Some a => a | None => ENull end) with
                   | Some f => f | None => 0 end
                   = match opt_int args 1 with Some f => f | None => 0 end).
-  { unfold index_arg_ok, opt_int in *. destruct (nth_error args 1) as [[| | f | |]|]; try discriminate; reflexivity. }
+  { unfold index_arg_ok, opt_int in *. destruct (nth_error args 1) as [[| | f | | |]|]; try discriminate; reflexivity. }
   rewrite Hfrom. set (f0 := match opt_int args 1 with Some f => f | None => 0 end).
   unfold rel_index. rewrite find_elem_js.
   destruct (Z.ltb_spec f0 0).
@@ -227,7 +229,7 @@ Lemma flat_is_spec : forall l args, index_arg_ok args 0 = true ->
 Proof.
   intros l args H. unfold m_flat, js_flat. rewrite slot_bind1.
   unfold index_arg_ok, opt_int in *.
-  destruct (nth_error args 0) as [[| | d | |]|]; try discriminate; cbn [is_null as_int];
+  destruct (nth_error args 0) as [[| | d | | |]|]; try discriminate; cbn [is_null as_int];
     rewrite flatten_js; reflexivity.
 Qed.
 
@@ -403,7 +405,7 @@ Proof.
     destruct (index_arg_ok args 0 && index_arg_ok args 1) eqn:E; [|discriminate].
     injection H as <-. unfold call. rewrite (slice_is_spec l args E). reflexivity.
   - (* splice *)
-    destruct (nth_error args 0) as [[| | s | |]|] eqn:E0; try discriminate.
+    destruct (nth_error args 0) as [[| | s | | |]|] eqn:E0; try discriminate.
     destruct (index_arg_ok args 1) eqn:E1; [|discriminate].
     unfold call. rewrite (splice_is_spec l args s E0 E1).
     destruct (js_splice l s (opt_int args 1) (skipn 2 args)) as [del aft]. injection H as <-. reflexivity.
